@@ -18,7 +18,7 @@ ASSUMPTIONS = ['data excludes the acknowledgement\'s own delimiters ~ * : ^ (tha
                'multi-interchange inputs share sender/receiver (which interchange a single 997 should address is not defined by the property)',
                'AK902 is compared only when GE01 is a canonical number; itemisation is checked tree => acknowledgement, not the converse',
                'a logged ERROR record counts as "reported"']
-REQUIRED_COUNTERS = ['docs:A', 'docs:B', 'docs:with-errors', 'docs:valid', 'ak2-checked', 'ak3-checked', 'ak4-checked', 'ak9-checked', 'acks:997', 'acks:999']
+REQUIRED_COUNTERS = ['reader-findings-checked', 'docs:A', 'docs:B', 'docs:with-errors', 'docs:valid', 'ak2-checked', 'ak3-checked', 'ak4-checked', 'ak9-checked', 'acks:997', 'acks:999']
 MIN_CASES = {'quick': 700, 'thorough': 20000}
 WATCHDOG_S = {'quick': 1200, 'thorough': 7200}
 
@@ -173,7 +173,8 @@ def check_items(ctx, st, aset, inside, is999, case):
             if not hit:
                 ctx.viol('ack:ak3-missing:code-%s' % want_code, 'a segment error of the tree is not itemised as AK3/IK3 with its id, position and code', case,
                          {'error': er[:12], 'ak3_lines': [b[0] for b in blocks][:12]})
-            if code != '3' and not (1 <= seg_count <= len(st['segs']) and st['segs'][seg_count - 1] == seg_id):
+            reader_level = er[13].startswith(('Segment contains', 'Segment identifier', 'Segment "'))      # judged by check_reader_attribution
+            if code != '3' and not reader_level and not (1 <= seg_count <= len(st['segs']) and st['segs'][seg_count - 1] == seg_id):
                 ctx.viol('ack:segment-position', 'the position reported for a segment error does not name a segment of that id in the input', case,
                          {'error': er[:12], 'segment_at_position': st['segs'][seg_count - 1] if 1 <= seg_count <= len(st['segs']) else None})
         elif level == 'ele':
@@ -201,11 +202,59 @@ def check_items(ctx, st, aset, inside, is999, case):
                          {'error': er[:12], 'segment_at_position': st['segs'][seg_count - 1] if 1 <= seg_count <= len(st['segs']) else None})
 
 
+def check_reader_attribution(ctx, text, res, case):
+    """(4) the reader's own findings about a segment (trailing separator -> SEG1, acknowledged as AK3 code 8; leading blank -> 1)
+    hang on that segment, not on a neighbour"""
+    terms, pieces = ref_token.tokenize(text)
+    ii = gi = si = -1
+    pos = 0
+    in_set = False
+    errs = res.errors or []
+    for p in pieces:
+        if p.blank_only:
+            continue
+        if p.sid == 'ISA':
+            ii += 1
+            gi = si = -1
+            in_set = False
+        elif p.sid == 'GS':
+            gi += 1
+            si = -1
+            in_set = False
+        elif p.sid == 'ST':
+            si += 1
+            pos = 0
+            in_set = True
+        pos += 1
+        if not in_set:
+            continue
+        for flag, code, what in ((p.trailing_sep, 'SEG1', 'trailing-separator'), (p.leading_blank, '1', 'leading-blank')):
+            if not flag:
+                continue
+            ctx.count('reader-findings-checked')
+            mine = [e for e in errs if e[0] == 'seg' and e[9] == code and (e[1], e[2], e[3]) == (ii, gi, si)]
+            if p.sid in ('ST', 'SE'):
+                own = [e for e in mine if e[4] in ('ST', 'SE', p.sid)]      # may be filed at set level; must not name another segment
+                wrong = [e for e in mine if e[4] not in ('ST', 'SE') and not any(q.sid == e[4] and (q.trailing_sep if code == 'SEG1' else q.leading_blank) for q in pieces)]
+                if wrong:
+                    ctx.viol('reader-finding:%s:on-%s:filed-under-another-segment' % (what, p.sid), 'a reader finding about an envelope segment is filed under a body segment', case,
+                             {'segment': p.sid, 'position': pos, 'filed_under': [e[:12] for e in wrong[:3]]})
+            else:
+                if not any(e[4] == p.sid and e[5] == pos for e in mine):
+                    ctx.viol('reader-finding:%s:not-at-its-segment' % what, 'a reader finding is not reported at the segment it is about', case,
+                             {'segment': p.sid, 'position': pos, 'found': [e[:12] for e in mine[:4]]})
+        if p.sid == 'SE':
+            in_set = False
+
+
 def check_verdict(ctx, res, case):
     reported_tree = bool(res.errors)
     logged = res.error_logs()
     if res.verdict is True and (reported_tree or logged):
-        ctx.viol('verdict:true-with-%s' % ('tree-errors' if reported_tree else 'logged-error'), 'verdict True although an error was reported', case,
+        kind = 'tree-errors' if reported_tree else 'logged-error'
+        if not reported_tree and all(r[2].startswith('No current segment in error_handler') for r in logged):
+            kind = 'logged-error:segment-error-dropped-on-envelope-segment'
+        ctx.viol('verdict:true-with-%s' % kind, 'verdict True although an error was reported', case,
                  {'errors': [e[:12] for e in (res.errors or [])[:5]], 'logs': logged[:4]})
     if res.verdict is False and not reported_tree and not logged:
         ctx.viol('verdict:false-with-nothing-reported', 'verdict False although no error was reported at any level', case, {})
@@ -222,6 +271,7 @@ def judge(ctx, text, case, full, sigs, mapname='?'):
     ctx.count('docs:with-errors' if res.errors else 'docs:valid')
     if full:
         check_ack(ctx, text, res, case)
+        check_reader_attribution(ctx, text, res, case)
     if res.errors:
         codes = sorted('%s%s' % (e[0][0], e[9]) for e in res.errors)
         shape = [(len(i['groups']), [len(x['sets']) for x in i['groups']]) for i in input_structure(text)] if text[:3] == 'ISA' else None
@@ -281,6 +331,19 @@ def run(ctx):
             kinds.append('envelope')
         text = doc.text()
         case = {'map': e['file'], 'gen': {'entry': e, 'seed': seed, 'kw': kw}, 'faults': kinds, 'charset': doc.charset, 'text': text if len(text) < 8000 else None, 'k': ['c05', ctx.shard, k]}
+        if rng.random() < 0.25:
+            lines = text.split('~\n')
+            for _ in range(rng.randint(1, 2)):
+                j = rng.randrange(2, max(3, len(lines) - 3))
+                if rng.random() < 0.3:
+                    cand = [q for q, l in enumerate(lines) if l.startswith('SE*')]
+                    j = rng.choice(cand) if cand else j
+                if lines[j] and not lines[j].startswith(('ISA', 'GS', 'GE', 'IEA')):
+                    lines[j] = (lines[j] + '*') if rng.random() < 0.7 else (' ' + lines[j])
+            text = '~\n'.join(lines)
+            kinds.append('reader-level')
+            case['faults'] = kinds
+            case['text'] = text if len(text) < 8000 else None
         if rng.random() < 0.18:
             text, names = mutate.mutate(rng, text)
             case['mutations'] = names
